@@ -84,7 +84,7 @@ func (rn *runner) judge(d *dataset, qi int, q *querySpec, outs []outcome) {
 			i = 1
 		}
 		if exp[i] == nil {
-			exp[i] = evaluate(q, rows, schema, desc)
+			exp[i] = evaluate(q, rows, schema, desc, quirks{})
 		}
 		return exp[i]
 	}
@@ -118,10 +118,24 @@ func (rn *runner) judge(d *dataset, qi int, q *querySpec, outs []outcome) {
 				refOK[i] = true
 				c.Count("reference-judgements-passed", 1)
 			} else {
-				addFail(classify(q, o.cell, mm, "reference", e), "reference", mm.String(), o.cell, mm, o.ans)
+				for _, f := range attribute(q, o.cell, rows, schema, o.ans, classify(q, o.cell, mm, "reference", e), mm) {
+					addFail(f.sig, "reference", f.what, o.cell, mm, o.ans)
+				}
 			}
 			rn.straddle(o.cell, o.ans, e)
+			if o.ans2 != nil {
+				if mm2 := checkReference(e, o.ans2); mm2 != nil && mm == nil {
+					for _, f := range attribute(q, o.cell, rows, schema, o.ans2, "second-statement-of-batch|"+classify(q, o.cell, mm2, "reference", e), mm2) {
+						addFail(f.sig, "reference", "second statement of the parallelbatch request: "+f.what, o.cell, mm2, o.ans2)
+					}
+				}
+			}
 		} else {
+			if o.ans2 != nil {
+				if mm2 := compareAnswers(canon[i], o.ans2.canonical(o.cell.Desc), q.isMean()); mm2 != nil {
+					addFail("second-statement-of-batch|"+classify(q, o.cell, mm2, "metamorphic", nil), "metamorphic", "the two statements of one parallelbatch request differ: "+mm2.String(), o.cell, mm2, o.ans2)
+				}
+			}
 			rn.straddle(o.cell, o.ans, nil)
 		}
 	}
